@@ -8,10 +8,10 @@ CONSTANTS
   Trail = 2
   BannerLen = 2
   MaxChunks = @MAXCHUNKS@
-  Scripts = {"silent", "banner", "echo", "close"}
-  Downs = {"up", "refuse", "closeatonce"}
-  AuthClasses = {"badhello", "badkey", "replay", "window", "encmethod", "method", "uid", "ok", "nosession"}
-  HiddenClasses = {"short", "bogus", "replay", "method", "uid"}
+  Scripts = @SCRIPTS@
+  Downs = @DOWNS@
+  AuthClasses = @AUTH@
+  HiddenClasses = @HIDDEN@
   AllCuts = @ALLCUTS@
   Dev = @DEV@
 INVARIANTS @INV@
